@@ -136,11 +136,17 @@ fn refs_txt(k: &[u64]) -> String {
     k.iter().map(|t| format!("{} 0 R", t)).collect::<Vec<_>>().join(" ")
 }
 
+/// the string object every dictionary / stream node carries, as PDF text and as bytes
+fn node_string(id: u64) -> String { format!("(text \\({}\\) of node {})", id % 7, id) }
+fn node_string_bytes(id: u64) -> Vec<u8> { format!("text ({}) of node {}", id % 7, id).into_bytes() }
+/// the data of a stream node (a form's content is a content stream)
+fn node_data(id: u64) -> Vec<u8> { format!("q {} 0 0 {} 0 0 cm Q % data of node {}", 1 + id % 5, 1 + id % 3, id).into_bytes() }
+
 fn node_body(id: u64, n: &GNode) -> Vec<u8> {
     match n.ty {
-        NT::Dict => format!("<< /P {} /K [{}] >>", id, refs_txt(&n.k)).into_bytes(),
+        NT::Dict => format!("<< /P {} /S {} /K [{}] >>", id, node_string(id), refs_txt(&n.k)).into_bytes(),
         NT::Arr => format!("[{} {}]", id, refs_txt(&n.k)).into_bytes(),
-        NT::Stm => stream_body(&format!("/P {} /K [{}]", id, refs_txt(&n.k)), format!("data of {}", id).as_bytes()),
+        NT::Stm => stream_body(&format!("/P {} /S {} /K [{}]", id, node_string(id), refs_txt(&n.k)), &node_data(id)),
         NT::Res => {
             let mut s = format!("<< /ColorSpace << /Id{} /DeviceRGB >>", id);
             if let Some(x) = n.a { s.push_str(&format!(" /XObject << /X0 {} 0 R >>", x)); }
@@ -151,8 +157,8 @@ fn node_body(id: u64, n: &GNode) -> Vec<u8> {
         NT::Form => {
             let mut d = String::from("/Type /XObject /Subtype /Form /BBox [0 0 1 1]");
             if let Some(r) = n.a { d.push_str(&format!(" /Resources {} 0 R", r)); }
-            d.push_str(&format!(" /P {} /K [{}]", id, refs_txt(&n.k)));
-            stream_body(&d, format!("q Q % form {}", id).as_bytes())
+            d.push_str(&format!(" /P {} /S {} /K [{}]", id, node_string(id), refs_txt(&n.k)));
+            stream_body(&d, &node_data(id))
         }
     }
 }
@@ -164,125 +170,263 @@ struct Layout {
     /// put the non-stream graph nodes into an object stream (needs xref_stream)
     objstm: bool,
     flate: bool,
-    /// standard security handler V1 / R2 (RC4, 40 bit), empty user password: stream data is encrypted with
-    /// the per-object key (the bodies this module writes hold no string objects outside streams)
-    encrypt: bool,
+    /// standard security handler: index into `crate::c06::doc::variants()` (R2 RC4-40 … R6 AES-256), empty user
+    /// password; every string and every stream is encrypted with the harness's own implementation of the standard
+    encrypt: Option<usize>,
+    /// V ≥ 4: the /EncryptMetadata flag (part of the key derivation)
+    encrypt_metadata: bool,
+    /// junk bytes before the header (all offsets in the file are relative to the header)
+    prefix: usize,
+    /// two revisions: some objects are first written with stale contents and replaced by an incremental update
+    revisions: bool,
+    /// seed of the writer's own choices (initialisation vectors, junk, which objects are stale)
+    seed: u64,
 }
 
-// ---------------------------------------------------------------------------------------------------
-// RC4 encryption of generated sources (independent of the library's crypt.rs; MD5 from the md5 crate)
+const PLAIN: Layout = Layout { xref_stream: false, objstm: false, flate: false, encrypt: None, encrypt_metadata: true, prefix: 0, revisions: false, seed: 0 };
 
-fn rc4(key: &[u8], data: &[u8]) -> Vec<u8> {
-    let mut s: Vec<u8> = (0..=255u8).collect();
-    let mut j: u8 = 0;
-    for i in 0..256 {
-        j = j.wrapping_add(s[i]).wrapping_add(key[i % key.len()]);
-        s.swap(i, j as usize);
-    }
-    let (mut i, mut j) = (0u8, 0u8);
-    data.iter().map(|b| {
-        i = i.wrapping_add(1);
-        j = j.wrapping_add(s[i as usize]);
-        s.swap(i as usize, j as usize);
-        b ^ s[s[i as usize].wrapping_add(s[j as usize]) as usize]
-    }).collect()
+fn random_layout(rng: &mut Rng, p_encrypt: (u64, u64)) -> Layout {
+    let xs = rng.chance(1, 2);
+    let nvar = crate::c06::doc::variants().len();
+    let encrypt = if rng.chance(p_encrypt.0, p_encrypt.1) {
+        // the six families evenly; within RC4 any key length
+        let fam = ["R2-RC4-40", "R3-RC4", "R4-RC4", "R4-AES128", "R5-AES256", "R6-AES256"][rng.usize(6)];
+        let c: Vec<usize> = (0..nvar).filter(|i| crate::c06::doc::variants()[*i].name == fam).collect();
+        Some(*rng.pick(&c))
+    } else { None };
+    Layout { xref_stream: xs, objstm: xs && rng.chance(1, 2), flate: rng.chance(1, 2), encrypt, encrypt_metadata: rng.chance(2, 3),
+        prefix: if rng.chance(1, 4) { 1 + rng.usize(300) } else { 0 }, revisions: rng.chance(1, 4), seed: rng.next() }
 }
 
-const PW_PAD: [u8; 32] = [0x28, 0xBF, 0x4E, 0x5E, 0x4E, 0x75, 0x8A, 0x41, 0x64, 0x00, 0x4E, 0x56, 0xFF, 0xFA, 0x01, 0x08,
-    0x2E, 0x2E, 0x00, 0xB6, 0xD0, 0x68, 0x3E, 0x80, 0x2F, 0x0C, 0xA9, 0xFE, 0x64, 0x53, 0x69, 0x7A];
-
-struct Crypt { key: Vec<u8>, o: Vec<u8>, u: Vec<u8>, id: Vec<u8>, p: i32 }
-
-fn crypt_setup() -> Crypt {
-    let id: Vec<u8> = (0..16u8).map(|i| i.wrapping_mul(17).wrapping_add(3)).collect();
-    let p: i32 = -4;
-    // Algorithm 3 (R2), owner password "owner", user password empty
-    let mut opw = b"owner".to_vec();
-    opw.extend_from_slice(&PW_PAD[..32 - 5]);
-    let ok = md5::compute(&opw).0[..5].to_vec();
-    let o = rc4(&ok, &PW_PAD);
-    // Algorithm 2 (R2)
-    let mut m = PW_PAD.to_vec();
-    m.extend_from_slice(&o);
-    m.extend_from_slice(&p.to_le_bytes());
-    m.extend_from_slice(&id);
-    let key = md5::compute(&m).0[..5].to_vec();
-    // Algorithm 4
-    let u = rc4(&key, &PW_PAD);
-    Crypt { key, o, u, id, p }
-}
-
-fn object_key(c: &Crypt, id: u64, gen: u64) -> Vec<u8> {
-    let mut m = c.key.clone();
-    m.extend_from_slice(&(id as u32).to_le_bytes()[..3]);
-    m.extend_from_slice(&(gen as u32).to_le_bytes()[..2]);
-    md5::compute(&m).0[..10].to_vec()
-}
-
-/// encrypt the data of a body produced by `stream_body` (`… >>\nstream\n<data>\nendstream`); RC4 keeps the length
-fn encrypt_stream_body(c: &Crypt, id: u64, body: &[u8]) -> Vec<u8> {
-    let marker = b">>\nstream\n";
-    let start = match body.windows(marker.len()).position(|w| w == marker) { Some(p) => p + marker.len(), None => return body.to_vec() };
-    let end = body.len() - b"\nendstream".len();
-    let mut out = body[..start].to_vec();
-    out.extend_from_slice(&rc4(&object_key(c, id, 0), &body[start..end]));
-    out.extend_from_slice(b"\nendstream");
-    out
+fn layout_label(l: &Layout) -> Vec<String> {
+    let mut v = vec![];
+    v.push(match l.encrypt { Some(i) => format!("source=encrypted:{}", crate::c06::doc::variants()[i].name), None => "source=not-encrypted".to_string() });
+    v.push(if l.objstm { "layout=object-streams" } else if l.xref_stream { "layout=xref-stream" } else { "layout=classic" }.to_string());
+    if l.prefix > 0 { v.push("source=behind-junk-prefix".into()); }
+    if l.revisions { v.push("source=two-revisions".into()); }
+    v
 }
 
 fn hex_string(b: &[u8]) -> String {
     format!("<{}>", b.iter().map(|x| format!("{:02X}", x)).collect::<String>())
 }
 
-/// objects 1 (catalog), 2 (pages), then `pages` (id, body) and `nodes`; returns the file
+/// a stream body produced by `stream_body`: (dictionary text without `/Length n >>`, data)
+fn split_stream_body(body: &[u8]) -> Option<(Vec<u8>, Vec<u8>)> {
+    let marker = b">>\nstream\n";
+    let p = body.windows(marker.len()).position(|w| w == marker)?;
+    let end = body.len().checked_sub(b"\nendstream".len())?;
+    let head = &body[..p];
+    let l = head.windows(8).rposition(|w| w == b"/Length ")?;
+    Some((head[..l].to_vec(), body[p + marker.len()..end].to_vec()))
+}
+
+/// the plaintext (still filter-encoded) data of every stream object, by object number: the ground truth the
+/// oracle compares imported streams with
+fn plain_streams(objects: &[(u64, Vec<u8>, bool)]) -> BTreeMap<u64, Vec<u8>> {
+    objects.iter().filter(|o| o.2).filter_map(|(id, b, _)| split_stream_body(b).map(|(_, d)| (*id, d))).collect()
+}
+
+/// pass every string object of PDF text (outside stream data) through `f`; the result is written as a hex string
+fn transform_strings(text: &[u8], f: &mut dyn FnMut(&[u8]) -> Vec<u8>) -> Vec<u8> {
+    let mut out = vec![];
+    let mut i = 0;
+    let n = text.len();
+    while i < n {
+        let b = text[i];
+        if b == b'(' {
+            let mut s = vec![];
+            let mut depth = 1;
+            i += 1;
+            while i < n && depth > 0 {
+                match text[i] {
+                    b'\\' if i + 1 < n => {
+                        i += 1;
+                        match text[i] {
+                            b'n' => s.push(b'\n'), b'r' => s.push(b'\r'), b't' => s.push(b'\t'), b'b' => s.push(8), b'f' => s.push(12),
+                            c @ b'0'..=b'7' => {
+                                let mut v = (c - b'0') as u32;
+                                let mut k = 0;
+                                while k < 2 && i + 1 < n && (b'0'..=b'7').contains(&text[i + 1]) { i += 1; v = v * 8 + (text[i] - b'0') as u32; k += 1; }
+                                s.push(v as u8);
+                            }
+                            c => s.push(c),
+                        }
+                    }
+                    b'(' => { depth += 1; s.push(b'('); }
+                    b')' => { depth -= 1; if depth > 0 { s.push(b')'); } }
+                    c => s.push(c),
+                }
+                i += 1;
+            }
+            out.extend_from_slice(hex_string(&f(&s)).as_bytes());
+        } else if b == b'<' && i + 1 < n && text[i + 1] == b'<' {
+            out.extend_from_slice(b"<<");
+            i += 2;
+        } else if b == b'<' {
+            let mut j = i + 1;
+            let mut digits = vec![];
+            while j < n && text[j] != b'>' { if !text[j].is_ascii_whitespace() { digits.push(text[j]); } j += 1; }
+            if digits.len() % 2 == 1 { digits.push(b'0'); }
+            let s = unhex(std::str::from_utf8(&digits).unwrap_or("")).unwrap_or_default();
+            out.extend_from_slice(hex_string(&f(&s)).as_bytes());
+            i = j + 1;
+        } else if b == b'>' && i + 1 < n && text[i + 1] == b'>' {
+            out.extend_from_slice(b">>");
+            i += 2;
+        } else {
+            out.push(b);
+            i += 1;
+        }
+    }
+    out
+}
+
+/// objects 1 (catalog), 2 (page tree root), then `objects` (number, body, is a stream); returns the file.
+/// Independent of pdf-rs: framing by `pdfwrite.rs`, encryption by the harness's implementation of the standard.
 fn write_doc(root_body: &[u8], objects: &[(u64, Vec<u8>, bool)], layout: Layout) -> Vec<u8> {
-    let mut w = PdfWriter::new(b"", "1.7");
+    use crate::c06::std_sec::*;
+    let mut wr = Rng::derive(layout.seed, "c20.writer", 0);
+    let junk: Vec<u8> = (0..layout.prefix).map(|_| b"junk before the header \n\r%!PS 0123456789 obj endobj"[wr.usize(51)]).collect();
+    let variant = layout.encrypt.map(|i| crate::c06::doc::variants()[i].clone());
+    let mut w = PdfWriter::new(&junk, if variant.as_ref().map(|v| v.v >= 5).unwrap_or(false) { "2.0" } else { "1.7" });
     w.free(0, 0, 65535);
-    let mut max_id = 2;
+    let mut max_id = objects.iter().map(|o| o.0).max().unwrap_or(2).max(2);
+    // --- encryption set-up
+    let enc = variant.as_ref().map(|var| {
+        // the password-dependent entries are expensive for R5 / R6: computed once per (variant, flag, /P) and process
+        thread_local! { static ENTRIES: std::cell::RefCell<BTreeMap<(usize, bool, i32), (Entries, Vec<u8>)>> = std::cell::RefCell::new(BTreeMap::new()); }
+        let p: i32 = *wr.pick(&[-4, -44, -1340, -1]);
+        let em = if var.v >= 4 { layout.encrypt_metadata } else { true };
+        let key = (layout.encrypt.unwrap_or(0), em, p);
+        let (entries, id0) = ENTRIES.with(|c| {
+            c.borrow_mut().entry(key).or_insert_with(|| {
+                let mut src = Rng::derive((0xC20u64 + key.0 as u64 * 31).wrapping_add(p as u64), "c20.writer.entries", em as u64);
+                let id0 = src.bytes(16);
+                let params = Params { r: var.r, n: var.n, cipher: var.cipher, p, id0: id0.clone(), encrypt_metadata: em };
+                let mut rnd = |k: usize| src.bytes(k);
+                (make_entries(&mut Rec::off(), &params, b"", b"owner", &mut rnd), id0)
+            }).clone()
+        });
+        let (fields, _) = crate::c06::doc::dict_fields(&mut wr, var, &entries, p, em);
+        (var.cipher, entries.file_key.clone(), fields, id0)
+    });
+    let mut ivs = Rng::derive(layout.seed, "c20.writer.iv", 0);
+    let mut encrypt_body = |id: u64, body: &[u8], is_stream: bool| -> Vec<u8> {
+        let (cipher, key) = match &enc { Some(e) => (e.0, e.1.clone()), None => return body.to_vec() };
+        let mut one = |data: &[u8]| -> Vec<u8> {
+            let mut iv = [0u8; 16];
+            iv.copy_from_slice(&ivs.bytes(16));
+            encrypt_object(&mut Rec::off(), cipher, &key, id, 0, data, &iv)
+        };
+        if is_stream {
+            match split_stream_body(body) {
+                Some((dict, data)) => {
+                    let d = transform_strings(&dict, &mut one);
+                    let stored = one(&data);
+                    let mut out = d;
+                    out.extend_from_slice(format!("/Length {} >>\nstream\n", stored.len()).as_bytes());
+                    out.extend_from_slice(&stored);
+                    out.extend_from_slice(b"\nendstream");
+                    out
+                }
+                None => body.to_vec(),
+            }
+        } else {
+            transform_strings(body, &mut one)
+        }
+    };
+    // --- which objects are first written stale (revision 1) and replaced in revision 2
+    let stale: BTreeSet<u64> = if layout.revisions { objects.iter().filter(|_| wr.chance(1, 3)).map(|o| o.0).collect() } else { BTreeSet::new() };
+    let stale_body = |id: u64, body: &[u8], is_stream: bool| -> Vec<u8> {
+        if is_stream {
+            match split_stream_body(body) {
+                Some((dict, data)) => {
+                    let mut d: Vec<u8> = data.iter().map(|b| b ^ 0x55).collect();
+                    d.extend_from_slice(format!(" stale {}", id).as_bytes());
+                    let mut out = dict;
+                    out.extend_from_slice(format!("/Length {} >>\nstream\n", d.len()).as_bytes());
+                    out.extend_from_slice(&d);
+                    out.extend_from_slice(b"\nendstream");
+                    out
+                }
+                None => body.to_vec(),
+            }
+        } else {
+            format!("<< /Stale {} /S (stale text) >>", id).into_bytes()
+        }
+    };
     w.object(1, 0, b"<< /Type /Catalog /Pages 2 0 R >>");
     w.object(2, 0, root_body);
-    let crypt = if layout.encrypt { Some(crypt_setup()) } else { None };
-    let mut members = vec![];
+    let use_objstm = layout.objstm && layout.xref_stream;
+    let mut members: Vec<(u64, Vec<u8>)> = vec![];
     for (id, body, is_stream) in objects {
-        max_id = max_id.max(*id);
-        if layout.objstm && layout.xref_stream && !*is_stream && crypt.is_none() {
-            members.push((*id, body.clone()));
-        } else if let (Some(c), true) = (&crypt, *is_stream) {
-            w.object(*id, 0, &encrypt_stream_body(c, *id, body));
+        if stale.contains(id) {
+            let b = stale_body(*id, body, *is_stream);
+            w.object(*id, 0, &encrypt_body(*id, &b, *is_stream));
+        } else if use_objstm && !*is_stream {
+            members.push((*id, body.clone())); // strings inside an object stream are not encrypted individually
         } else {
-            w.object(*id, 0, body);
+            w.object(*id, 0, &encrypt_body(*id, body, *is_stream));
         }
     }
     if !members.is_empty() {
         max_id += 1;
-        w.object_stream(max_id, &members, if layout.flate { StmFilter::Flate } else { StmFilter::None }, b"\n", "");
+        let stm = max_id;
+        let mut head = String::new();
+        let mut bodies = Vec::new();
+        for (id, b) in &members {
+            head.push_str(&format!("{} {} ", id, bodies.len()));
+            bodies.extend_from_slice(b);
+            bodies.push(b'\n');
+        }
+        let first = head.len();
+        let mut data = head.into_bytes();
+        data.extend_from_slice(&bodies);
+        let (f, data) = if layout.flate { ("/Filter /FlateDecode", zlib(&data)) } else { ("", data) };
+        let body = stream_body(&format!("/Type /ObjStm /N {} /First {} {}", members.len(), first, f), &data);
+        w.object(stm, 0, &encrypt_body(stm, &body, true));
+        for (i, (id, _)) in members.iter().enumerate() {
+            w.record(*id, Entry::Compressed { stm, idx: i as u64 });
+        }
     }
-    let trailer = match &crypt {
-        Some(c) => {
-            // the library reads /Encrypt only as an indirect object
+    let trailer = match &enc {
+        Some((_, _, fields, id0)) => {
+            // the encryption dictionary: an indirect object, never encrypted
             max_id += 1;
-            w.object(max_id, 0, format!("<< /Filter /Standard /V 1 /R 2 /O {} /U {} /P {} >>", hex_string(&c.o), hex_string(&c.u), c.p).as_bytes());
-            format!("/Root 1 0 R /Encrypt {} 0 R /ID [{} {}]", max_id, hex_string(&c.id), hex_string(&c.id))
+            let mut b = vec![];
+            crate::c06::doc::ser_opt(&fields.to_pv(), &mut |s: &[u8]| s.to_vec(), &mut wr, &mut b, true);
+            w.object(max_id, 0, &b);
+            format!("/Root 1 0 R /Encrypt {} 0 R /ID [{} {}]", max_id, hex_string(id0), hex_string(id0))
         }
         None => "/Root 1 0 R".to_string(),
     };
-    if layout.xref_stream {
-        max_id += 1;
-        w.finish(XrefFormat::Stream, max_id + 1, &trailer, &[], max_id);
-    } else {
-        w.finish(XrefFormat::Classic, max_id + 1, &trailer, &[], 0);
+    let fmt = if layout.xref_stream { XrefFormat::Stream } else { XrefFormat::Classic };
+    let size = max_id + 4;
+    w.finish(fmt, size, &trailer, &[], max_id + 1);
+    if !stale.is_empty() {
+        for (id, body, is_stream) in objects {
+            if stale.contains(id) {
+                w.object(*id, 0, &encrypt_body(*id, body, *is_stream));
+            }
+        }
+        w.finish(fmt, size, &trailer, &[], max_id + 2);
     }
     w.out
 }
 
 const PAGE_MIN: &str = "<< /Type /Page /Parent 2 0 R /MediaBox [0 0 10 10] /Resources << >> >>";
 
-fn graph_doc(g: &Graph, layout: Layout) -> Vec<u8> {
+fn graph_objects(g: &Graph) -> Vec<(u64, Vec<u8>, bool)> {
     let mut objs: Vec<(u64, Vec<u8>, bool)> = vec![(3, PAGE_MIN.as_bytes().to_vec(), false)];
     for (id, n) in g {
         objs.push((*id, node_body(*id, n), matches!(n.ty, NT::Stm | NT::Form)));
     }
-    write_doc(b"<< /Type /Pages /Kids [3 0 R] /Count 1 >>", &objs, layout)
+    objs
+}
+
+fn graph_doc(g: &Graph, layout: Layout) -> Vec<u8> {
+    write_doc(b"<< /Type /Pages /Kids [3 0 R] /Count 1 >>", &graph_objects(g), layout)
 }
 
 // ---------------------------------------------------------------------------------------------------
@@ -619,7 +763,6 @@ impl CloneCase {
     }
 }
 
-const PLAIN: Layout = Layout { xref_stream: false, objstm: false, flate: false, encrypt: false };
 
 fn run_clone_cases(driver: &Driver, st: &mut Stream, cases: &[CloneCase]) {
     let reqs: Vec<String> = cases.iter().map(|c| c.request()).collect();
@@ -759,12 +902,10 @@ fn clone_random(driver: &Driver, seed: u64, n: u64) -> Stream {
         let miss = rng.chance(1, 5);
         let g = random_graph(&mut rng, cyc, miss);
         let roots = random_roots(&mut rng, &g);
-        let xs = rng.chance(1, 2);
-        let layout = Layout { xref_stream: xs, objstm: xs && rng.chance(1, 2), flate: rng.chance(1, 2), encrypt: rng.chance(1, 6) };
+        let layout = random_layout(&mut rng, (1, 3));
         st.count(&format!("nodes={}", g.len()));
         for (k, _) in &roots { st.count(&format!("root-kind={}", k)); }
-        if layout.encrypt { st.count("source=encrypted(RC4)"); }
-        st.count(if layout.objstm && !layout.encrypt { "layout=objstm" } else if layout.xref_stream { "layout=xref-stream" } else { "layout=classic" });
+        for l in layout_label(&layout) { st.count(&l); }
         cases.push(CloneCase { g, roots, layout });
     }
     run_clone_cases(driver, &mut st, &cases);
@@ -997,6 +1138,23 @@ fn attrs_text(a: &Attrs) -> String {
 /// Object numbers: 2 root, pages 3.., content streams after them (two per page), /Pages nodes 30.., indirect
 /// resource dictionaries / category dictionaries / entries 40..99; graph nodes keep their numbers (≥ 100)
 fn page_doc(doc: &PDoc, g: &Graph, extra: &[(u64, Vec<u8>, bool)], layout: Layout) -> Vec<u8> {
+    let (root_body, objs) = page_doc_parts(doc, g, extra);
+    write_doc(&root_body, &objs, layout)
+}
+
+/// what the generator knows about a page document independently of any reader: the data of every stream object
+/// and the operations of every page, in plaintext
+fn ground_truth(doc: &PDoc, objs: &[(u64, Vec<u8>, bool)]) -> (Value, Value) {
+    let mut plain = serde_json::Map::new();
+    for (id, d) in plain_streams(objs) { plain.insert(id.to_string(), json!(hex(&d))); }
+    let mut content = serde_json::Map::new();
+    for (i, p) in doc.pages.iter().enumerate() {
+        content.insert(i.to_string(), json!(hex(if p.no_contents { String::new() } else { ops_text_of(&p.ops, doc.collide) }.as_bytes())));
+    }
+    (Value::Object(plain), Value::Object(content))
+}
+
+fn page_doc_parts(doc: &PDoc, g: &Graph, extra: &[(u64, Vec<u8>, bool)]) -> (Vec<u8>, Vec<(u64, Vec<u8>, bool)>) {
     let mut objs: Vec<(u64, Vec<u8>, bool)> = vec![];
     let np = doc.pages.len() as u64;
     let node_id = |n: usize| if n == 0 { 2 } else { 29 + n as u64 };
@@ -1065,7 +1223,7 @@ fn page_doc(doc: &PDoc, g: &Graph, extra: &[(u64, Vec<u8>, bool)], layout: Layou
         objs.push((*id, node_body(*id, n), matches!(n.ty, NT::Stm | NT::Form)));
     }
     for e in extra { objs.push(e.clone()); }
-    write_doc(&root_body, &objs, layout)
+    (root_body, objs)
 }
 
 /// entries of a resource dictionary as written by the library: `kind.name.payload:kids` (kids through `tr`)
@@ -1494,8 +1652,8 @@ fn page_streams(driver: &Driver, seed: u64, n: u64) -> (Stream, Stream) {
         let mut order: Vec<u32> = (0..np as u32).collect();
         rng.shuffle(&mut order);
         if rng.chance(1, 4) { let d = order[0]; order.push(d); }
-        let xs = rng.chance(1, 2);
-        let layout = Layout { xref_stream: xs, objstm: xs && rng.chance(1, 2), flate: rng.chance(1, 2), encrypt: rng.chance(1, 6) };
+        let layout = random_layout(&mut rng, (1, 3));
+        for l in layout_label(&layout) { st.count(&l); }
         let bytes = page_doc(&doc, &g, &[], layout);
         let pre = if rng.chance(1, 3) { 1 + rng.below(4) } else { 0 };
         let page_fields: Vec<String> = order.iter().map(|i| doc.page_model(*i as usize)).collect();
@@ -1560,6 +1718,9 @@ struct Cmp<'a, RO: Resolve, RN: Resolve> {
     /// (signature, description)
     diffs: Vec<(String, String)>,
     steps: usize,
+    /// generated sources: the plaintext data of the source's stream objects, as the generator wrote them (not
+    /// as any reader sees them)
+    plain: Option<BTreeMap<u64, Vec<u8>>>,
 }
 
 fn num_of(p: &Primitive) -> Option<f64> {
@@ -1665,7 +1826,17 @@ impl<'a, RO: Resolve, RN: Resolve> Cmp<'a, RO, RN> {
                 let pa = self.ro.resolve(*ra);
                 let pb = self.rn.resolve(*rb);
                 match (pa, pb) {
-                    (Ok(pa), Ok(pb)) => self.equiv(&format!("{}@{}", path, ra.id), &pa, &pb),
+                    (Ok(pa), Ok(pb)) => {
+                        // ground truth: the copy of a stream holds the source's plaintext bytes
+                        if let (Some(Some(want)), Primitive::Stream(sb)) = (self.plain.as_ref().map(|p| p.get(&ra.id).cloned()), &pb) {
+                            match sb.raw_data(self.rn) {
+                                Ok(got) if got[..] == want[..] => {}
+                                Ok(got) => self.diff("stream-data-differs-from-plaintext", format!("{}: the copy (object {}) of stream {} holds {} bytes that are not the {} bytes the source was written from", path, rb.id, ra.id, got.len(), want.len())),
+                                Err(e) => self.diff("stream-data-unreadable", format!("{}: data of the copied stream cannot be read: {}", path, e)),
+                            }
+                        }
+                        self.equiv(&format!("{}@{}", path, ra.id), &pa, &pb)
+                    }
                     (Err(_), Ok(pb)) => { if !matches!(pb, Primitive::Null) { self.diff("copy-of-missing-object", format!("{}: source reference {} does not resolve but the copy does", path, ra.id)); } }
                     (Ok(pa), Err(e)) => {
                         if is_missing(&e) {
@@ -1729,6 +1900,14 @@ impl<'a, RO: Resolve, RN: Resolve> Cmp<'a, RO, RN> {
     }
     fn dicts(&mut self, path: &str, da: &Dictionary, db: &Dictionary, is_stream: bool) {
         let skip = |k: &str| is_stream && matches!(k, "Length" | "Filter" | "DecodeParms");
+        if self.plain.is_some() {
+            // generated nodes: /S is a known function of /P
+            if let (Some(Primitive::Integer(id)), Some(Primitive::String(sv))) = (da.get("P"), db.get("S")) {
+                if sv.as_bytes() != &node_string_bytes(*id as u64)[..] {
+                    self.diff("string-differs-from-plaintext", format!("{}: the copy of node {} holds the string {:?}", path, id, sv));
+                }
+            }
+        }
         for (k, va) in da.iter() {
             if skip(k.as_str()) { continue; }
             match db.get(k.as_str()) {
@@ -2042,7 +2221,9 @@ fn exec_import(case: &Value) -> Value {
     if new.num_pages() as usize != done.len() {
         failures.push(("page-count".into(), format!("{} pages imported, the new document has {}", done.len(), new.num_pages())));
     }
-    let mut cmp = Cmp { ro: &ro, rn: &rn, fwd: BTreeMap::new(), bwd: BTreeMap::new(), visited: BTreeSet::new(), diffs: vec![], steps: 0 };
+    let plain: Option<BTreeMap<u64, Vec<u8>>> = case.get("plain").and_then(|p| p.as_object()).map(|m| m.iter().filter_map(|(k, v)| Some((k.parse().ok()?, unhex(v.as_str()?)?))).collect());
+    let content_plain = case.get("content_plain").cloned().unwrap_or(Value::Null);
+    let mut cmp = Cmp { ro: &ro, rn: &rn, fwd: BTreeMap::new(), bwd: BTreeMap::new(), visited: BTreeSet::new(), diffs: vec![], steps: 0, plain };
     for (ix, (pi, opage)) in done.iter().enumerate() {
         let npage = match catch_unwind(AssertUnwindSafe(|| new.get_page(ix as u32))) {
             Ok(Ok(p)) => p,
@@ -2079,6 +2260,18 @@ fn exec_import(case: &Value) -> Value {
             Some(Err(e)) => { failures.push(("new-ops-unreadable".into(), format!("{}: the operations of the new page cannot be read: {}", tag, e))); continue; }
             None => vec![],
         };
+        // ground truth for the operations: what the generator wrote, parsed without any document
+        if let Some(h) = content_plain.get(pi.to_string()).and_then(|h| h.as_str()) {
+            if let Ok(want) = pdf::content::parse_ops(&unhex(h).unwrap_or_default(), &ro) {
+                bump(&mut stats, "operations-compared-with-plaintext");
+                if ops_text(&want) != ops_text(&nops) {
+                    let rt = pdf::content::serialize_ops(&want).ok().and_then(|d| pdf::content::parse_ops(&d, &ro).ok()).map(|o| ops_text(&o));
+                    if rt.as_ref() != Some(&ops_text(&nops)) {
+                        failures.push(("operations-differ-from-plaintext".into(), format!("{}: the new page has {} operations, the source page was written with {}", tag, nops.len(), want.len())));
+                    }
+                }
+            }
+        }
         let (ot, nt) = (ops_text(&oops), ops_text(&nops));
         *stats.entry("operations-compared".into()).or_insert(0) += ot.len() as u64;
         // property lists of marked-content operators may hold references: compared modulo renaming
@@ -2563,21 +2756,21 @@ fn import_generated(seed: u64, thorough: bool) -> Oracle {
         let mut res_gen = |rng: &mut Rng| { let mut r: Vec<ResSpec> = pool.iter().filter(|_| rng.chance(2, 3)).cloned().collect(); rng.shuffle(&mut r); r };
         let pdoc = random_pdoc(&mut rng, &g, DocOpts { all_kinds, max_pages: 4 }, &mut res_gen);
         let pages = &pdoc.pages;
-        let xs = rng.chance(1, 2);
-        let layout = Layout { xref_stream: xs, objstm: xs && rng.chance(2, 3), flate: rng.chance(1, 2), encrypt: rng.chance(1, 4) };
-        let doc = page_doc(&pdoc, &g, &rich.objs, layout);
+        let layout = random_layout(&mut rng, (1, 2));
+        let (root_body, objs) = page_doc_parts(&pdoc, &g, &rich.objs);
+        let (plain, content_plain) = ground_truth(&pdoc, &objs);
+        let doc = write_doc(&root_body, &objs, layout);
         let np = pages.len() as u32;
         let mut order: Vec<u32> = (0..np).collect();
         match rng.below(4) { 0 => {} 1 => order.reverse(), 2 => rng.shuffle(&mut order), _ => { rng.shuffle(&mut order); order.truncate(1 + rng.usize(np as usize)); } }
         if rng.chance(1, 5) { let d = order[0]; order.push(d); }
-        if layout.encrypt { or.count("source=encrypted(RC4)"); }
-        or.count(if layout.objstm && !layout.encrypt { "layout=object-streams" } else if layout.xref_stream { "layout=xref-stream" } else { "layout=classic" });
+        for l in layout_label(&layout) { or.count(&l); }
         or.count(if has_cycle(&g) { "graph=cyclic" } else { "graph=acyclic" });
         or.count(if all_kinds { "resources=all-categories" } else { "resources=handled-categories" });
         count_doc(&mut |k| or.count(k), &pdoc);
         cases.push(ImportCase {
             label: format!("generated #{} pages {:?}", case, order),
-            case: json!({"kind": "import", "doc": hex(&doc), "password": "-", "pages": order}),
+            case: json!({"kind": "import", "doc": hex(&doc), "password": "-", "pages": order, "plain": plain, "content_plain": content_plain}),
             child: has_cycle(&g) || thorough == false && case % 16 == 0,
             nontrivial: true,
         });
